@@ -105,6 +105,17 @@ pub(crate) fn verify_nonmembership<TC: Configuration>(
         ));
     }
 
+    // Verify that neither child of the longest prefix is itself a prefix of the proof's
+    // label. Otherwise the label could still be present deeper in that child's subtree,
+    // and longest_prefix would not be the deepest node on the label's path.
+    for child in proof.longest_prefix_children.iter() {
+        if child.label != TC::empty_label() && child.label.is_prefix_of(&proof.label) {
+            return Err(VerificationError::NonMembershipProof(
+                "One of the children's labels is a prefix of the proof's label".to_string(),
+            ));
+        }
+    }
+
     // Verify that proof.longest_prefix is the longest common prefix of the children
     let mut lcp_children = proof.longest_prefix_children[0]
         .label
